@@ -808,7 +808,7 @@ func parseScheduledStopTimes(csv *csv.File, stops []Stop, trips []ScheduledTrip)
 		tripID := tripIDColumn.Read()
 		if currentTrip == nil || currentTripID != tripID {
 			thisTrip := idToTrip[tripID]
-			if currentTrip != nil && cap(thisTrip.StopTimes) == 0 {
+			if thisTrip != nil && currentTrip != nil && cap(thisTrip.StopTimes) == 0 {
 				thisTrip.StopTimes = make([]ScheduledStopTime, 0, len(currentTrip.StopTimes))
 			}
 			currentTrip = thisTrip
